@@ -11,12 +11,12 @@ import (
 type Expr interface{ String() string }
 
 type (
-	EIdent  struct{ Name string }
-	EInt    struct{ V string }
-	EStr    struct{ V string }
-	EBool   struct{ V bool }
-	ENil    struct{}
-	EUnary  struct {
+	EIdent struct{ Name string }
+	EInt   struct{ V string }
+	EStr   struct{ V string }
+	EBool  struct{ V bool }
+	ENil   struct{}
+	EUnary struct {
 		Op string
 		X  Expr
 	}
@@ -224,8 +224,8 @@ func ParseExpr(s string) (e Expr, err error) {
 type parseErr string
 
 func (p *parser) fail(f string, a ...any) { panic(parseErr(fmt.Sprintf(f, a...))) }
-func (p *parser) peek() tok             { return p.toks[p.pos] }
-func (p *parser) next() tok             { t := p.toks[p.pos]; p.pos++; return t }
+func (p *parser) peek() tok               { return p.toks[p.pos] }
+func (p *parser) next() tok               { t := p.toks[p.pos]; p.pos++; return t }
 func (p *parser) isOp(s string) bool      { t := p.peek(); return t.kind == "op" && t.text == s }
 func (p *parser) expectOp(s string) {
 	if !p.isOp(s) {
